@@ -3,9 +3,6 @@ From Coq Require Import List ZArith NArith Bool Lia.
 Import ListNotations.
 From SAV.sql Require Import Val3 InList InListSpecProofs InListCloseProofs.
 
-Definition all_scalar (vals : list value) : bool := forallb (fun v => negb (is_sequence v)) vals.
-Definition all_tuple (k : nat) (vals : list value) : bool :=
-  forallb (fun v => match v with VTuple l => Nat.eqb (length l) k | VScalar _ => false end) vals.
 
 (* the (name, value) pairs added to the parameter dictionary *)
 Definition tu_scalar (ss : list sv) : list (key * sv) :=
@@ -66,7 +63,7 @@ Qed.
 
 Lemma nth_error_concat_blocks k ts : Forall (fun te => length te = k) ts ->
   forall n i te j, nth_error ts i = Some te -> (j < k)%nat ->
-  nth_error (concat (blocks_from n ts)) (i * k + j)
+  nth_error (A := (N * N * sv)) (concat (blocks_from n ts)) (i * k + j)
   = Some (((n + N.of_nat i)%N, (1 + N.of_nat j)%N), nth j te SNull).
 Proof.
   intros H. induction H as [|t0 ts Ht0 H IH]; intros n i te j Hi Hj.
@@ -76,11 +73,11 @@ Proof.
     assert (Hb0 : length b0 = k) by (subst b0; now rewrite map_length, enum_from_length).
     destruct i as [|i].
     + cbn [nth_error] in Hi. inversion Hi; subst te. cbn [Nat.mul Nat.add].
-      unfold key in *. rewrite nth_error_app1 by lia. subst b0. rewrite nth_error_map, enum_from_nth.
+      rewrite nth_error_app1 by lia. subst b0. rewrite nth_error_map, enum_from_nth.
       destruct (nth_error t0 j) as [a|] eqn:E.
       * cbn [option_map fst snd]. f_equal. f_equal; [f_equal; lia|]. symmetry. now apply nth_error_nth.
       * apply nth_error_None in E. lia.
-    + cbn [nth_error] in Hi. unfold key in *.
+    + cbn [nth_error] in Hi.
       replace (S i * k + j)%nat with (length b0 + (i * k + j))%nat by (rewrite Hb0; cbn [Nat.mul]; lia).
       rewrite nth_error_app2 by lia.
       replace (length b0 + (i * k + j) - length b0)%nat with (i * k + j)%nat by lia.
@@ -138,5 +135,6 @@ Proof.
     intros j Hj. apply in_seq in Hj.
     assert (Hte : length te = k).
     { rewrite Forall_forall in Hlen. apply Hlen. eapply nth_error_In; eauto. }
-    rewrite Hte. rewrite (nth_error_concat_blocks k ts Hlen 1%N i te j Hnth) by lia. reflexivity.
+    rewrite Hte. pose proof (nth_error_concat_blocks k ts Hlen 1%N i te j Hnth) as HH.
+    rewrite HH by lia. reflexivity.
 Qed.
